@@ -369,6 +369,41 @@ func (c16) Gen(rng *rand.Rand, tier string) []Case {
 		h = c16History(rng, kind, 12)
 		add(cfg, h, []string{"start", fmt.Sprintf("fcan:%d", rng.Intn(c16CountPk(h)+2))})
 	}
+	// (g) exhaustive small scope: every history over a 6-letter alphabet up to a depth, for each source kind
+	// (concat: split after the first item), under four scripts
+	alpha := []string{"p:0102,10,2,2,1", "p:81,20,1,3,2", "e:to", "e:tmp", "e:ueof", "e:weof"}
+	depth := 2
+	if tier == "thorough" {
+		depth = 4
+	}
+	var hists [][]string
+	var rec func(prefix []string, d int)
+	rec = func(prefix []string, d int) {
+		hists = append(hists, append([]string(nil), prefix...))
+		if d == 0 {
+			return
+		}
+		for _, a := range alpha {
+			rec(append(prefix, a), d-1)
+		}
+	}
+	rec(nil, depth)
+	for _, h := range hists {
+		for _, cfg := range []string{"cfg:plain,1", "cfg:zc,0", "cfg:concat,0"} {
+			hh := h
+			if cfg == "cfg:concat,0" && len(h) > 1 {
+				hh = append(append(append([]string(nil), h[:1]...), "s:"), h[1:]...)
+			}
+			var pulls []string
+			for k := 0; k < len(h)+1; k++ {
+				pulls = append(pulls, "next")
+			}
+			add([]string{cfg}, hh, pulls)
+			add([]string{cfg}, hh, []string{"start", "grantall", "fin"})
+			add([]string{cfg}, hh, []string{"start", "grant:1", "recv:1", "cancel", "fin"})
+			add([]string{cfg}, hh, []string{"next", "cancel", "start", "grantall", "fin"})
+		}
+	}
 	// (f) more packets than the channel holds: producer blocked in the send
 	for i := 0; i < nfull; i++ {
 		for v := 0; v < 3; v++ {
